@@ -344,6 +344,38 @@ def run_large(rec, tier, seed):
             if st != "ok" or not numpy.array_equal(y.numpy(), ref):
                 rec.violation("pairwise_annotations_spacing:wrong:large", dict(fn="pairwise_annotations_spacing", rows=n, max_distance=md, symmetric=sym, generator="rs(23+seed)"),
                               observed=y if st != "ok" else None)
+            # the same table as a tuple of per-column vectors whose integer dtypes differ (narrow example / annotation indexes, wide
+            # coordinates beyond 255), as arrays, tensors and pandas Series - also Series whose index labels are permuted (rows pair by position)
+            import pandas
+            cols = [numpy.array([r[k] for r in tab]) for k in range(4)]
+            perm = numpy.argsort([(r[2] * 7 + r[0]) % 101 for r in tab], kind="stable")
+            # (the column tuple of this function is ordered example, start, end, annotation)
+            forms = {
+                "arrays uint8/int64/int64/int16": (cols[0].astype(numpy.uint8), cols[2].astype(numpy.int64), cols[3].astype(numpy.int64), cols[1].astype(numpy.int16)),
+                "tensors uint8/int32/int64/uint8": (torch.from_numpy(cols[0].astype(numpy.uint8)), torch.from_numpy(cols[2].astype(numpy.int32)),
+                                                    torch.from_numpy(cols[3].astype(numpy.int64)), torch.from_numpy(cols[1].astype(numpy.uint8))),
+                "frame pieces with permuted index labels": (pandas.DataFrame({"e": cols[0]}, index=perm), pandas.DataFrame({"s": cols[2], "t": cols[3]}),
+                                                            pandas.DataFrame({"a": cols[1]}, index=perm[::-1].copy())),
+            }
+            for fname, tup in forms.items():
+                st, y = call(pairwise_annotations_spacing, tup, max_distance=md, dtype=torch.int64, symmetric=sym)
+                rec.case(1, 1)
+                if st != "ok" or not numpy.array_equal(y.numpy(), ref):
+                    rec.violation("pairwise_annotations_spacing:wrong:column_tuple", dict(fn="pairwise_annotations_spacing", rows=n, max_distance=md, symmetric=sym, form=fname,
+                                  generator="rs(23+seed)"), observed=y if st != "ok" else None)
+            tab2 = [(r[0], r[1]) for r in tab]
+            r2 = _ref_pairs(tab2, max(r[1] for r in tab) + 1, sym)
+            rc2 = _ref_counts(tab2, max(r[0] for r in tab) + 1, max(r[1] for r in tab) + 1)
+            for fname, tup in (("series with permuted index labels", (pandas.Series(cols[0], index=perm), pandas.Series(cols[1]))),
+                               ("arrays uint8/int64", (cols[0].astype(numpy.uint8), cols[1].astype(numpy.int64)))):
+                st, y = call(pairwise_annotations, tup, symmetric=sym)
+                st2, y2 = call(count_annotations, tup, dtype=torch.int64)
+                rec.case(2, 2)
+                if st != "ok" or not numpy.array_equal(y.numpy().astype(numpy.int64), r2):
+                    rec.violation("pairwise_annotations:wrong:column_tuple", dict(fn="pairwise_annotations", rows=n, symmetric=sym, form=fname, generator="rs(23+seed)"),
+                                  observed=y if st != "ok" else None)
+                if st2 != "ok" or not numpy.array_equal(y2.numpy(), rc2):
+                    rec.violation("count_annotations:wrong:column_tuple", dict(fn="count_annotations", rows=n, form=fname, generator="rs(23+seed)"), observed=y2 if st2 != "ok" else None)
     # kmers on long sequences (counts above 255 and above 65535 for k=1), several rows
     for (A_, k, L) in ((4, 1, 70000), (4, 3, 5000), (2, 4, 3000), (3, 2, 300), (4, 2, (1 << 20) + 9)):
         codes = rs.randint(0, A_, (3, L))
